@@ -7,6 +7,7 @@ import (
 	"go/ast"
 	"go/token"
 	"go/types"
+	"math/big"
 	"os"
 	"regexp"
 	"sort"
@@ -360,6 +361,7 @@ func checkC18(c *Ctx, e *Env) {
 	})
 	importObligations(c, e, checkC07, "C07", "C18.MAXFEE", "fees#charged-as-configured", "with the configured fee rates a purchase succeeds exactly when the stated max fee covers the buyer fee that is actually charged (rounded down to whole units)", func(o *Oblig) bool { return o.Rule == "C07.GUARDS" && strings.Contains(o.Construct, "max-fee") })
 	importObligations(c, e, checkC03, "C03", "C18.ASKDENOM", "allowed denominations#usable-for-their-own-market", "a denomination governance has allowed can be sold and bought in only if Sell / UpdateSellOrders file the order under a market of exactly that denomination", func(o *Oblig) bool { return o.Rule == "C03.ASKDENOM" })
+	ruleNoUnconditionalRejection(c, m, r, map[string]*stateVal{"FeeParams": feeVal})
 	c.Min("parameter parse sites", 2, len(pks))
 	// ---------------- PARAM: NewCoin amounts and bank coins
 	bound := feeVal.Attrs["parse(req.SellerPercentageFee)"].NonNeg
@@ -902,4 +904,213 @@ func ruleKeyNormalisation(c *Ctx, m *Model, r *E1, rule string) {
 		}
 		c.Violate(rule, tn, "-", "writers and readers of "+tn+" normalise its key differently: "+strings.Join(parts, " vs ")+": an entry stored under one form is not found under the other", nil)
 	}
+}
+
+// ---- REJECT: no explicit rejection that an accepted parameter value makes unconditional -----------
+
+var paramRowAtom = regexp.MustCompile(`parse\(([A-Za-z]+)#\d+\.([A-Za-z]+)\)`)
+var cmpFactRe = regexp.MustCompile(`^([+-])(Gt0|Lt0|Eq0)\((.*)\)$`)
+
+// substParamLin replaces the atom pa by the constant v, through products and truncations.
+func substParamLin(l Lin, pa string, v int64, depth int) (Lin, bool) {
+	out := linConst(0)
+	if l.C != nil {
+		out.C = new(big.Rat).Set(l.C)
+	}
+	for a, cf := range l.T {
+		sub, ok := substParamAtom(a, pa, v, depth)
+		if !ok {
+			return l, false
+		}
+		out = out.Add(scaleLin(sub, cf))
+	}
+	return out, true
+}
+
+func substParamAtom(a, pa string, v int64, depth int) (Lin, bool) {
+	switch {
+	case a == pa:
+		return linConst(v), true
+	case !strings.Contains(a, pa):
+		return linAtom(a), true
+	case depth > 6:
+		return Lin{}, false
+	case strings.HasPrefix(a, "mul[") && strings.HasSuffix(a, "]"):
+		args := splitTop(a[4:len(a)-1], " ; ")
+		if len(args) != 2 {
+			return Lin{}, false
+		}
+		var ls [2]Lin
+		for i, s := range args {
+			l, ok := linByStr[s]
+			if !ok {
+				return Lin{}, false
+			}
+			if ls[i], ok = substParamLin(l, pa, v, depth+1); !ok {
+				return Lin{}, false
+			}
+		}
+		switch {
+		case ls[0].IsConst():
+			return scaleLin(ls[1], ls[0].C), true
+		case ls[1].IsConst():
+			return scaleLin(ls[0], ls[1].C), true
+		}
+		x, y := sortedPair(regLin(ls[0]), regLin(ls[1]))
+		return linAtom("mul[" + x + " ; " + y + "]"), true
+	case strings.HasPrefix(a, "trunc[") && strings.HasSuffix(a, "]"):
+		l, ok := linByStr[a[6:len(a)-1]]
+		if !ok {
+			return Lin{}, false
+		}
+		sl, ok := substParamLin(l, pa, v, depth+1)
+		if !ok {
+			return Lin{}, false
+		}
+		if sl.IsConst() {
+			if !sl.C.IsInt() {
+				return Lin{}, false
+			}
+			return sl, true
+		}
+		return linAtom("trunc[" + regLin(sl) + "]"), true
+	}
+	return Lin{}, false
+}
+
+// evalCmpFact: the truth value of ±Op(c) for a constant c.
+func evalCmpFact(sign, op string, c *big.Rat) bool {
+	var t bool
+	switch op {
+	case "Gt0":
+		t = c.Sign() > 0
+	case "Lt0":
+		t = c.Sign() < 0
+	default:
+		t = c.Sign() == 0
+	}
+	if sign == "-" {
+		return !t
+	}
+	return t
+}
+
+// ruleNoUnconditionalRejection: a rejection written in a handler (a registered error wrapped at the
+// rejection site) whose deciding comparison involves a decimal governance parameter must not become
+// true whatever the request and the rest of the state are once the parameter takes a boundary value
+// (0 or 1) that its state validator accepts: such a value would be an accepted configuration under
+// which every call of the handler that reaches the comparison fails. Decided by substituting the
+// boundary value into the comparison's linear form (products and truncations folded) and evaluating it
+// where it becomes constant; comparisons that stay symbolic depend on the request and are not judged.
+func ruleNoUnconditionalRejection(c *Ctx, m *Model, r *E1, validators map[string]*stateVal) {
+	p := m.P
+	type agg struct {
+		pos string
+		n   int
+		bad string
+	}
+	sites := map[string]*agg{}
+	nJudged := 0
+	accepted := func(table, col string, v int64) bool {
+		sv := validators[table]
+		if sv == nil || !sv.OK {
+			return false
+		}
+		atom := "parse(req." + col + ")"
+		at, has := sv.Attrs[atom]
+		if !has {
+			return false
+		}
+		if v == 0 && at.Pos {
+			return false
+		}
+		for f := range sv.Facts {
+			mm := cmpFactRe.FindStringSubmatch(f)
+			if mm == nil || !strings.Contains(mm[3], atom) {
+				continue
+			}
+			l, ok := linByStr[mm[3]]
+			if !ok {
+				return false
+			}
+			sl, ok := substParamLin(l, atom, v, 0)
+			if !ok || !sl.IsConst() {
+				return false
+			}
+			if !evalCmpFact(mm[1], mm[2], sl.C) {
+				return false
+			}
+		}
+		return true
+	}
+	for _, h := range r.Handlers {
+		if h.EP.Kind != "msg" {
+			continue
+		}
+		idx := errResultIndex(h.Fn.Signature)
+		for _, o := range h.AbortOuts {
+			if idx < 0 || idx >= len(o.Rets) {
+				continue
+			}
+			ev, ok := o.Rets[idx].(*ErrV)
+			if !ok || !strings.HasPrefix(ev.Origin, "wrap:") || !strings.Contains(ev.Origin, "<global:") || ev.At == 0 || ev.At > len(o.St.facts) {
+				continue
+			}
+			f := o.St.facts[ev.At-1]
+			mm := cmpFactRe.FindStringSubmatch(f)
+			if mm == nil {
+				continue
+			}
+			pas := paramRowAtom.FindAllStringSubmatch(mm[3], -1)
+			if len(pas) == 0 {
+				continue
+			}
+			l, ok := linByStr[mm[3]]
+			if !ok {
+				continue
+			}
+			sent := ev.Origin[strings.Index(ev.Origin, "<global:")+8:]
+			key := h.Key + "#" + strings.TrimSuffix(sent, ">") + "@" + mm[2] + "(" + pas[0][1] + "." + pas[0][2] + ")"
+			a := sites[key]
+			if a == nil {
+				a = &agg{pos: p.Pos(h.Fn.Pos())}
+				sites[key] = a
+			}
+			a.n++
+			seen := map[string]bool{}
+			for _, pa := range pas {
+				if seen[pa[0]] {
+					continue
+				}
+				seen[pa[0]] = true
+				for _, v := range []int64{0, 1} {
+					if !accepted(pa[1], pa[2], v) {
+						continue
+					}
+					sl, ok := substParamLin(l, pa[0], v, 0)
+					if !ok || !sl.IsConst() {
+						continue
+					}
+					nJudged++
+					if evalCmpFact(mm[1], mm[2], sl.C) && a.bad == "" {
+						a.bad = fmt.Sprintf("with %s.%s = %d, which the state validator accepts, the rejecting comparison %s is true for every request and state: every call that reaches it fails (path {%s})", pa[1], pa[2], v, f, outcomeLabel(h, o))
+					}
+				}
+			}
+		}
+	}
+	var ks []string
+	for k := range sites {
+		ks = append(ks, k)
+	}
+	sort.Strings(ks)
+	for _, k := range ks {
+		a := sites[k]
+		if a.bad != "" {
+			c.Violate("C18.REJECT", k, a.pos, a.bad, nil)
+		} else {
+			c.Hold("C18.REJECT", k, a.pos, fmt.Sprintf("the rejecting comparison stays dependent on the request or the balances at the accepted boundary values of the parameter (%d path visits)", a.n), nil)
+		}
+	}
+	c.Count("parameter_rejections_judged_constant", nJudged)
 }
